@@ -111,6 +111,12 @@ def run(chk, only=None):
     tus = [t for c, t in snippets if c == 0]
     for _ in range(100 if quick else 1000):
         inputs.append((0, "\n".join(rng.choice(tus) for _ in range(rng.randint(2, 6)))))
+    import random as _random
+    import cgen, ambig
+    for _i in range(100 if quick else 2000):
+        inputs.append((0, cgen.G(_random.Random(rng.getrandbits(40)), gnu=(_i % 3 == 0)).unit()))
+    for _i in range(50 if quick else 1000):
+        inputs.append((0, ambig.P(_random.Random(rng.getrandbits(40))).generate().text()))
     valid_n = len(inputs)
     for c, t in rng.sample(snippets, 250 if quick else len(snippets)):
         for m in mutate.mutants(rng, t, 3 if quick else 8):
@@ -199,7 +205,7 @@ def run(chk, only=None):
                 bad.append((r, m, "downcast", (name, fam)))
     chk.coverage["evaluations"] = len(reqs)
     chk.coverage["distinct_nontrivial"] = len({(m[0], m[1]) for m, p in zip(meta, parsed) if p and p != "crash" and p[0] is not None and len(p[1]) > 5})
-    chk.coverage["rule"] = ("the %d snippets of the repository's own parser/binder/checker tests (every node kind they cover) in their syntax category, %d random concatenations, "
+    chk.coverage["rule"] = ("the %d snippets of the repository's own parser/binder/checker tests (every node kind they cover) in their syntax category, %d random concatenations and generated units (gen/cgen.py, gen/ambig.py), "
                             "and %d token-level mutants (deletion, duplication, swap, truncation, insertion, replacement) of them, each under disambiguation modes %s; for every node: extent vs the hull of "
                             "its token slots, extent vs the model, slots increasing, visit count, family downcast. non-trivial = a tree with more than five nodes"
                             % (len(snippets), 100 if quick else 1000, len(inputs) - valid_n, modes))
